@@ -248,7 +248,7 @@ def gen_popon(rng, rich=True, ncaps=None, max_len=30):
     doubled = rng.random() < 0.5
     mixed = rich and rng.random() < 0.15          # captions sent single and captions sent doubled in one stream
     file_doubled = doubled
-    offset = rng.choice([0, 0, 0, 1, 3600])
+    offset = rng.choice([0, 0, 0, 1, 3600, 0.5, 2.5])       # also offsets that are not whole seconds
     caps = []
     frame = rng.choice([0, 30, 3600 * 30, 3600 * 30 + 17, 100])
     if offset == 3600:
@@ -279,10 +279,25 @@ def gen_popon(rng, rich=True, ncaps=None, max_len=30):
             # italics carried over several rows, adjacent or not: every row starts with an italic preamble
             for rw_ in rows:
                 rw_["italic_pac"] = True; rw_["indent"] = 0
+        if rich and len(rows) >= 2 and rng.random() < 0.1:
+            # rows loaded bottom-up: every row is addressed on its own, none continues the one before
+            rows.reverse()
         words = []
         pre = [CMD["ENM"]] if rng.random() < 0.8 else []
         words += pre * (2 if doubled else 1)
         words += [CMD["RCL"]] * (2 if doubled else 1)
+        if rich and rows and rng.random() < 0.1:
+            # a preamble (plain or italic, or plain followed by the italic mid-row code) that is abandoned before anything
+            # is written: the cursor moves on to the first real row, the screen shows nothing of it
+            fr = rows[0]["row"]
+            cand = [x for x in (fr - 1, fr - 1, fr - 3, fr + 2) if 1 <= x <= 15 and all(abs(x - r_["row"]) != 0 for r_ in rows)]
+            if cand:
+                lead_row = rng.choice(cand)
+                kind = rng.randrange(3)
+                unit = [pac(lead_row, 0, italic=(kind == 1))] * (2 if doubled else 1)
+                if kind == 2:
+                    unit += [midrow(True)] * (2 if doubled else 1)
+                words += unit
         for row in rows:
             words += row_words(row, doubled)
         if rich and rows and rng.random() < 0.15:
